@@ -6,6 +6,7 @@
 import Props.Tables
 import Jmes.Interp
 import Proofs.Printer
+import Props.C03
 namespace Jmes.Props
 open Jmes Jmes.Interp
 
@@ -173,5 +174,30 @@ theorem C02_pipe_ends_the_rhs (a bb c : Bytes) :
   have := round_trip_spec (N := N) _ hw
   rw [parseTokens_congr (sameDecisions_of_tableOK Generated.table Spec.table generated_table_ok spec_table_ok)]
   simpa [ppE, ppRhs, PE.rp, Rhs.rp, PE.level, PE.isListOrHash, node, nodeRhs, BinOp.pow, BinOp.tok, BinOp.node] using this
+
+/-! ### … and for ARBITRARY expressions: a pipe, a closing token, a separator end whatever projection is open
+
+The two statements below are the general facts behind "the projection ends at a pipe / closing
+parenthesis": they hold for every expression `A` that compiles, whatever projections it ends in
+and whatever their right-hand sides are. -/
+
+/-- In `A | B` the pipe ends every projection left open at the end of `A`: `A | B` compiles and
+    evaluates as `B` applied to the value of `A` as compiled alone. -/
+theorem C02_pipe_ends_any_projection (As Bs : List Token) (eA eB pt : Token) (a b : Node N) (total : Nat)
+    (heA : eA.ty = .eof) (heB : eB.ty = .eof) (hpt : pt.ty = .pipe)
+    (hnA : ∀ t ∈ As, t.ty ≠ .eof) (hnB : ∀ t ∈ Bs, t.ty ≠ .eof)
+    (hA : Parser.parseTokens Generated.table (As ++ [eA]) = .ok a) (hB : Parser.parseTokens Generated.table (Bs ++ [eB]) = .ok b)
+    (htoks : Lexer.TokensOK total (As ++ pt :: (Bs ++ [eB]))) :
+    ∃ X, Parser.parseTokens Generated.table (As ++ pt :: (Bs ++ [eB])) = .ok X ∧
+      ∀ (ft : List FnEntry) (d : Val N), eval ft X d = (eval ft a d >>= fun v => eval ft b v) :=
+  C15_pipe_of_any_expressions As Bs eA eB pt a b total heA heB hpt hnA hnB hA hB htoks
+
+/-- In front of `)`, `]`, `}`, `,` or the end of input the parser has read exactly `A` and built the
+    AST `A` compiles to alone: nothing after the closing token is drawn into an open projection. -/
+theorem C02_closing_token_ends_any_projection (As : List Token) (eA : Token) (a : Node N)
+    (heA : eA.ty = .eof) (hnA : ∀ t ∈ As, t.ty ≠ .eof) (hA : Parser.parseTokens Spec.table (As ++ [eA]) = .ok a)
+    (bef : List Token) (f : Token) (rest : List Token) (hf : Parser.followerOK f.ty = true) (hpow : Parser.specPow f.ty = 0) :
+    Parser.R Spec.table (.expr 0 ⟨bef, As ++ f :: rest⟩) (.node a ⟨As.reverse ++ bef, f :: rest⟩) :=
+  C03_member_is_read_as_alone As eA a heA hnA hA bef f rest hf hpow
 
 end Jmes.Props
